@@ -39,6 +39,7 @@ from fdtdx.objects.object import (
     SizeConstraint,
     SizeExtensionConstraint,
 )
+from fdtdx.objects.sources.source import Source
 from fdtdx.objects.static_material.static import SimulationVolume, StaticMultiMaterialObject, UniformMaterialObject
 
 DEFAULT_MAX_ITER = 1000
@@ -512,6 +513,10 @@ def apply_params(
                 dispersive_c4=disp_c4,
                 electric_conductivity=sigma_e,
             )
+        if isinstance(obj, Source):
+            # the on/off caches are derived from the switch: refresh them so that a switch edited after placement
+            # (calculate_sparam silences the non-input ports this way) takes effect
+            obj = obj._update_on_arrays()
         new_objects.append(obj)
     new_objects = ObjectContainer(
         object_list=new_objects,
